@@ -202,11 +202,11 @@ Definition expected_shape : list (string * list string) :=
     ("client.Handler.close",
      ["set self.connection_lost <- {}"]);
     ("server.Handler.accept",
-     ["call request_handler({self.mapping}; {stream}; {headers}; {self.codec}; {self.status_details_codec}; {self.dispatch}; {release_stream})"; "call self.__gc_step__()"; "call self.loop.create_task({request_handler()})"; "call task.add_done_callback({lambda})"; "setitem self._"]);
+     ["call request_handler({self.mapping}; {stream}; {headers}; {self.codec}; {self.status_details_codec}; {self.dispatch}; {release_stream})"; "call self.__gc_step__()"; "call self.loop.create_task({request_handler()})"; "call task.add_done_callback({lambda})"; "store self._ <- {stream, task}"]);
     ("server.Handler.cancel",
-     ["call self._.add({task})"; "call task.cancel()"; "pop self._/2"]);
+     ["call task.cancel()"; "pop self._/2"; "store self._ <- {task}"]);
     ("server.Handler.close",
-     ["call self._.update({task})"; "call task.cancel()"; "set self.closing <- {}"; "values self._"]) ]%string.
+     ["call task.cancel()"; "set self.closing <- {}"; "store self._ <- {task}"; "values self._"]) ]%string.
 
 Fixpoint zll_eqb (a b : list (list Z)) : bool :=
   match a, b with
